@@ -615,6 +615,90 @@ int run_repro() {
 
 }  // namespace
 
+// ---------------------------------------------------------------------------------------------
+// "wrap" mode: more than 32768 x capacity retirements through a tiny queue, so that the 16-bit slot
+// versions of the collector's queue wrap while retire() keeps hitting a full queue (the producer is
+// faster than the collector, whose back-off sleeps are shortened by the interposed usleep). Added
+// after the seeded change C10-a2 (`version == expected` -> `>=` in the queue's spin-wait slow path,
+// which only differs at the wrap) escaped the ordinary episodes, which retire a few hundred tasks.
+// Oracle: every reclaimer is invoked exactly once by the time stop() returns, none dropped un-invoked;
+// stop() returns (stuck rule).
+struct WrapReclaimer {
+  std::atomic<uint8_t>* cnt = nullptr;
+  std::atomic<uint64_t>* dropped = nullptr;
+  bool armed = false;
+  WrapReclaimer() = default;
+  WrapReclaimer(std::atomic<uint8_t>* c, std::atomic<uint64_t>* d) : cnt(c), dropped(d), armed(true) {}
+  WrapReclaimer(WrapReclaimer&& o) noexcept : cnt(o.cnt), dropped(o.dropped), armed(o.armed) { o.armed = false; }
+  WrapReclaimer& operator=(WrapReclaimer&& o) noexcept {
+    if (this != &o) {
+      if (armed) dropped->fetch_add(1, std::memory_order_relaxed);
+      cnt = o.cnt; dropped = o.dropped; armed = o.armed;
+      o.armed = false;
+    }
+    return *this;
+  }
+  ~WrapReclaimer() { if (armed) dropped->fetch_add(1, std::memory_order_relaxed); }
+  void operator()() noexcept {
+    if (!armed) return;
+    armed = false;
+    cnt->fetch_add(1, std::memory_order_relaxed);
+    vf::progress();
+  }
+};
+
+static void run_wrap(uint64_t seed, uint64_t index) {
+  vf::Rng r(vf::mix(seed, index, 0xc10e));
+  size_t cap = size_t(r.pick<int>({1, 1, 2, 4}));
+  size_t real_cap = 1;
+  while (real_cap < cap) real_cap <<= 1;
+  uint64_t n = 32768 * real_cap + r.range(500, 4000);
+  int retirers = int(r.range(1, 3));
+  std::string desc = vf::fmt("wrap ep=%lu seed=%lu capacity=%zu retirements=%lu retirers=%d", (unsigned long)index,
+                             (unsigned long)seed, cap, (unsigned long)n, retirers);
+  vf::watchdog().set_context(desc);
+  g_sleep_cap_us.store(1, std::memory_order_relaxed);
+  std::unique_ptr<std::atomic<uint8_t>[]> cnt(new std::atomic<uint8_t>[n]);
+  for (uint64_t i = 0; i < n; ++i) cnt[i].store(0, std::memory_order_relaxed);
+  std::atomic<uint64_t> dropped {0}, next {0};
+  {
+    ::babylon::GarbageCollector<WrapReclaimer> gc;
+    gc.set_queue_capacity(cap);
+    gc.start();
+    vf::watchdog().arm(true);
+    vf::run_threads(retirers, vf::mix(seed, index, 7), [&](int) {
+      for (;;) {
+        uint64_t i = next.fetch_add(1, std::memory_order_relaxed);
+        if (i >= n || vf::failed()) break;
+        gc.retire(WrapReclaimer(&cnt[i], &dropped));
+        vf::progress();
+      }
+    });
+    gc.stop();
+    vf::watchdog().arm(false);
+  }
+  g_sleep_cap_us.store(0, std::memory_order_relaxed);
+  uint64_t never = 0, twice = 0, first = UINT64_MAX;
+  for (uint64_t i = 0; i < n; ++i) {
+    uint8_t c = cnt[i].load(std::memory_order_relaxed);
+    if (c == 0) { ++never; first = std::min(first, i); }
+    if (c > 1) { ++twice; first = std::min(first, i); }
+  }
+  if (twice)
+    vf::violation("c10:wrap:reclaimer-invoked-twice", vf::fmt("%lu reclaimer(s) invoked more than once", (unsigned long)twice),
+                  desc + vf::fmt(" first=%lu", (unsigned long)first));
+  if (never || dropped.load())
+    vf::violation("c10:wrap:reclaimer-never-invoked",
+                  vf::fmt("%lu of %lu reclaimers were never invoked although stop() returned (%lu destroyed un-invoked)",
+                          (unsigned long)never, (unsigned long)n, (unsigned long)dropped.load()),
+                  desc + vf::fmt(" first never-invoked id=%lu (slot-version wrap of a capacity-%zu queue is at id %lu)",
+                                 (unsigned long)first, real_cap, (unsigned long)(32768 * real_cap)));
+  VF_COUNT_N("obs:wrap_retirements", n);
+  VF_COUNT("obs:wrap_episodes");
+  vf::evaluated(vf::mix(0xc10e, cap, uint64_t(retirers), n & 0xff), true);
+  if (index < 2) vf::sample(vf::fmt("{\"mode\": \"wrap\", \"config\": %s}", vf::jstr(desc).c_str()));
+}
+
 // The collector's back-off (and the blocked push of retire()) sleep through ::usleep: record the state and optionally
 // shorten the sleep. A shorter sleep only removes delay; correctness of a collector must not depend on it.
 extern "C" int usleep(useconds_t us) {
@@ -632,6 +716,15 @@ int main(int argc, char** argv) {
   if (a.mode == "repro") {
     run_repro();
     return 0;
+  }
+  if (a.mode == "wrap") {
+    auto& wdw = vf::watchdog();
+    wdw.classify = []() -> std::string { return "stuck:wrap:retire-or-stop-never-returned"; };
+    wdw.start();
+    uint64_t nw = vf::budget(3, 60);
+    for (uint64_t e = 0; e < nw && !vf::failed(); ++e) run_wrap(a.seed, e);
+    wdw.shutdown();
+    return vf::finish();
   }
   auto& wd = vf::watchdog();
   wd.classify = []() -> std::string {
